@@ -82,11 +82,12 @@ func (o wOp) String() string {
 }
 
 type c17WCase struct {
-	Ops      []wOp `json:"ops"`
-	Sched    []int `json:"sched,omitempty"`    // virtual-time delays (microseconds) at the hook sites, cyclic
-	SinkFail int   `json:"sinkfail,omitempty"` // > 0: the k-th Write call on every sink fails (once, or from then on)
-	Sticky   bool  `json:"sticky,omitempty"`
-	FailKind int   `json:"failkind,omitempty"` // the injected sink error: 0 plain, 1 wraps io.EOF, 2 wraps io.ErrUnexpectedEOF
+	Ops       []wOp `json:"ops"`
+	Sched     []int `json:"sched,omitempty"`    // virtual-time delays (microseconds) at the hook sites, cyclic
+	SinkFail  int   `json:"sinkfail,omitempty"` // > 0: the k-th Write call on every sink fails (once, or from then on)
+	Sticky    bool  `json:"sticky,omitempty"`
+	FailKind  int   `json:"failkind,omitempty"`  // the injected sink error: 0 plain, 1 wraps io.EOF, 2 wraps io.ErrUnexpectedEOF
+	OnlyFirst bool  `json:"onlyfirst,omitempty"` // only the first sink of the history fails; the sinks handed to Reset later are healthy (what an old failure leaves behind must not show)
 }
 
 // recorded option vector of the model (NewWriter defaults)
@@ -266,7 +267,12 @@ func (r *wRun) run(c c17WCase) {
 		total += op.N
 	}
 	class := func(s string) { r.classes = append(r.classes, s) }
+	nsinks := 0
 	newSink := func() *inst.Sink {
+		nsinks++
+		if c.OnlyFirst && nsinks > 1 {
+			return &inst.Sink{Cap: 48<<20 + 2*total}
+		}
 		return &inst.Sink{Cap: 48<<20 + 2*total, FailAt: c.SinkFail, Sticky: c.Sticky, FailWith: []error{nil, inst.ErrInjectedWrapsEOF, inst.ErrInjectedWrapsUnexpectedEOF}[c.FailKind%3]}
 	}
 	// a call that reports the injected sink failure puts the object into its error state: from then on, until Reset,
@@ -274,6 +280,10 @@ func (r *wRun) run(c c17WCase) {
 	sinkReported := false // a call of the current epoch has returned the injected sink failure
 	injected := func(err error) bool {
 		if err != nil && c.SinkFail > 0 && errors.Is(err, inst.ErrInjected) {
+			if c.OnlyFirst && nsinks > 1 {
+				// the sink of this epoch is healthy: the failure comes from an earlier epoch, across a Reset
+				return false
+			}
 			class("sink-failure/reported")
 			sinkReported = true
 			return true
@@ -633,6 +643,7 @@ func drawC17WAfterFailure(t *rapid.T) c17WCase {
 	c.SinkFail = rapid.IntRange(1, 5).Draw(t, "sinkfail")
 	c.Sticky = rapid.Bool().Draw(t, "sticky")
 	c.FailKind = rapid.IntRange(0, 2).Draw(t, "failkind")
+	c.OnlyFirst = rapid.Bool().Draw(t, "onlyfirst")
 	d := &optDelta{BS: ip(4), Conc: ip(rapid.SampledFrom([]int{1, 1, 2, 4}).Draw(t, "conc"))}
 	if rapid.IntRange(0, 3).Draw(t, "legacy?") == 0 {
 		d.Legacy = bp(true)
@@ -731,6 +742,7 @@ func drawC17W(t *rapid.T) c17WCase {
 		c.SinkFail = rapid.IntRange(1, 8).Draw(t, "sinkfail")
 		c.Sticky = rapid.Bool().Draw(t, "sticky")
 		c.FailKind = rapid.IntRange(0, 2).Draw(t, "failkind")
+		c.OnlyFirst = rapid.Bool().Draw(t, "onlyfirst")
 	}
 	return c
 }
